@@ -137,6 +137,24 @@ extra = {
 for k, v in extra.items():
     lvl, tech, text, note, ref = claims[k]
     claims[k] = (lvl, tech, text + v, note, ref)
+# round-4 additions
+extra4 = {
+ 'C01': ' history() computes the window summary from the rolling window on every call (no remembered snapshot); the REST middleware accepts exactly when the status recorder\'s code is < 500, the recorder forwards and records every code (a path keeping the previous code must have compared status codes), and nothing else writes the recorded code (R10).',
+ 'C06': ' Every encode/decode of a cached row in core/stores/{cache,sqlc,monc} goes through core/jsonx (R10).',
+ 'C08': ' Memo tables: the key of every package-level memo map of core/mapping determines all inputs of the memoised computation, by data flow and by the branch conditions selecting between alternative results (R9; found and fixed F15, F16); the options-membership test is applied to the supplied value as it came, not to a transformed copy; the request-side adapters hand values from the request\'s collections to the unmarshaller unchanged (R10).',
+ 'C09': ' A method is listed in Allow only after Tree.Search - the dispatcher\'s matcher - matched its tree.',
+ 'C12': ' The batch of due timers handed to the firing goroutine is built from nil/make by that tick and not kept in a field (R9).',
+ 'C13': ' Every event applied to the watcher\'s map reaches the listener loop (no event is declared a no-op by the registry); a joining listener is attached to the shared watch before the current values are read and replayed, the first listener before the initial load (R9).',
+ 'C14': ' A panicking body makes Transact return a non-nil error (a re-raised panic is a violation of "reported as an error").',
+ 'C15': ' In-tree users pass a weight that derives from the node\'s own configuration only (no value accumulated over the other nodes, R6).',
+ 'C16': ' Every function deleting from Cache.data removes the key from the recency list on the same path, unless it is the list\'s own eviction callback (R9).',
+ 'C17': ' Decoder-output model: every dynamic type the YAML library in use can store into an any, the nil of a YAML null included, has an explicit case in the converter (R10; found and fixed F14); fillSlice writes element i of the source to element i of the target and stores the converted slice whole (R11); conf.toLowerCase returns strings.ToLower(s), or s itself only when a 256-value table per examined byte shows every byte ASCII and not upper case (R12).',
+ 'C18': ' On every path of engine.bindRoute that registers a route, jwt.enabled was seen false or handler.Authorize was built and appended before - for the built-in and a user-supplied chain alike - and the signature verifier is applied once (R9); with a positive Content-Length decryptBody reads the body through no limit other than one derived from the configured limit or the length (R10).',
+ 'C19': ' Acquire/Release run their ...Ctx sibling themselves, once, on their own receiver and return its results unchanged; RedisLock methods use no package-level state besides the two scripts (R7).',
+}
+for k, v in extra4.items():
+    lvl, tech, text, note, ref = claims[k]
+    claims[k] = (lvl, tech, text + v, note, ref)
 not_built_reason = 'static rules designed (DESIGN.md section 3) but not built yet in this revision'
 
 checks, na = [], []
